@@ -651,7 +651,7 @@ class PartitionedArray(object):
         )
 
     def is_unique(self):
-        return all([x.is_unique() for x in self.partitions])
+        return self.toContent().is_unique()
 
     def copy_to(self, ptr_lib):
         return self.from_ext(self._ext.copy_to(ptr_lib))
